@@ -134,6 +134,14 @@ def check_events(ctx, mode, vals, evs, replay, tag=''):
                 continue        # already reported by the range monitor
             ctx.count('values_checked', 4)
             msg = oracle.color_ok(col, ideal, hue_free=hue_free)
+            if not msg and mode == 'logical' and ideal[0] == 0 and \
+                    col[0] > oracle.TOL:
+                # a whole number of turns: (degrees mod 360)/360*65535 is
+                # exactly 0 and is sent as 0, not as the other name of the
+                # same angle (just *below* a full turn the repository snaps to
+                # 0 on purpose, so there 0 and 65535 both pass)
+                msg = 'hue sent {} for a whole number of turns (ideal 0)' \
+                    .format(col[0])
             if msg:
                 ctx.violation('numeric:{}:{}{}'.format(kind, mode, tag),
                               '{} {}: {} (registers {})'.format(
